@@ -5,6 +5,7 @@ package vgirpc
 
 import (
 	"context"
+	"io"
 	"net/http"
 	"sync"
 	"sync/atomic"
@@ -132,4 +133,19 @@ func (c *countingResponseWriter) Flush() {
 	if f, ok := c.ResponseWriter.(http.Flusher); ok {
 		f.Flush()
 	}
+}
+
+// countingRequestBody tallies the bytes read from a request body whose length
+// was not declared up front (chunked uploads), so request_bytes still reports
+// what the peer sent. It is read by the handler goroutine only, before the
+// record is assembled in OnDispatchEnd.
+type countingRequestBody struct {
+	io.ReadCloser
+	rec *egressRecorder
+}
+
+func (c *countingRequestBody) Read(p []byte) (int, error) {
+	n, err := c.ReadCloser.Read(p)
+	c.rec.requestBytes += int64(n)
+	return n, err
 }
